@@ -5,7 +5,10 @@ use crate::drive::*;
 use serde_json::json;
 
 pub fn registry() -> Vec<Box<dyn FamilyDyn>> {
-    vec![Box::new(FamRunner::new(crate::fam_lock::program_set))]
+    vec![
+        Box::new(FamRunner::new(crate::fam_lock::program_set)),
+        Box::new(FamRunner::new(crate::fam_atomic::program_set)),
+    ]
 }
 
 pub fn family(name: &str) -> Box<dyn FamilyDyn> {
@@ -110,10 +113,13 @@ pub fn c04(ctx: &CheckCtx) -> CheckResult {
     run_e2(
         ctx,
         &mut res,
-        &[("lock", set, mode)],
-        &[VKind::Sound, VKind::Enabled, VKind::Ending, VKind::Abort],
+        &[("lock", set, mode.clone()), ("atomic", set, Mode { complete: true, ..mode })],
+        // atomics: the total-order claim has both directions — every execution is explained by the
+        // log order (Sound) and every SC interleaving's outcome is produced (Missing)
+        &[VKind::Sound, VKind::Enabled, VKind::Ending, VKind::Abort, VKind::Missing],
         if ctx.tier.is_thorough() { 1500.0 } else { 50.0 },
     );
+    atomic_differential(ctx, &mut res);
     res.cov("rule", e2_rule());
     res.assumptions.push("small-scope: programs up to the stated size only".into());
     res.assumptions.push("reference model written from std's documented lock contract (Appendix A of DESIGN.md)".into());
@@ -161,10 +167,67 @@ pub fn replay_file(id: &str, path: &str) -> ! {
                 println!("{}", fam.replay(set, idx, &strings_to_alts(&alts)));
             }
         }
+        Some("atomic-diff") => {
+            println!("case: {}", r["case"]);
+            let v = crate::atomic_diff::run_type(r["type_index"].as_u64().unwrap() as usize, true);
+            println!("re-run of the whole type: evaluations={} mismatches={}", v["evaluations"], v["mismatches"].as_array().map(|a| a.len()).unwrap_or(0));
+            for m in v["mismatches"].as_array().cloned().unwrap_or_default().iter().take(5) {
+                println!("  {}", m);
+            }
+        }
         other => {
             println!("no replayer for engine {:?}", other);
             std::process::exit(2);
         }
     }
     std::process::exit(0)
+}
+
+
+/// C04 (ii): run the sequential differential of all 14 atomic types in parallel child processes.
+fn atomic_differential(ctx: &CheckCtx, res: &mut CheckResult) {
+    let exe = std::env::current_exe().expect("current_exe");
+    let children: Vec<_> = (0..crate::atomic_diff::TYPES)
+        .map(|i| {
+            std::process::Command::new(&exe)
+                .arg("atomic-diff")
+                .arg(i.to_string())
+                .arg(if ctx.tier.is_thorough() { "full" } else { "quick" })
+                .stdout(std::process::Stdio::piped())
+                .stderr(std::process::Stdio::null())
+                .spawn()
+                .expect("spawn atomic-diff")
+        })
+        .collect();
+    let mut total = 0u64;
+    let mut classes = 0u64;
+    for (i, c) in children.into_iter().enumerate() {
+        let out = c.wait_with_output().expect("wait atomic-diff");
+        let txt = String::from_utf8_lossy(&out.stdout);
+        let v: serde_json::Value = match txt.lines().last().and_then(|l| serde_json::from_str(l).ok()) {
+            Some(v) => v,
+            None => {
+                res.machinery_errors.push(format!("atomic-diff child {} produced no report (status {:?})", i, out.status));
+                continue;
+            }
+        };
+        total += v["evaluations"].as_u64().unwrap_or(0);
+        classes += v["classes"].as_array().map(|a| a.len() as u64).unwrap_or(0);
+        if let Some(p) = v["panic"].as_str() {
+            res.finding(format!("atomic-diff/panic/type{}", i), format!("atomic operation panicked: {}", p), json!({"engine": "atomic-diff", "type_index": i}));
+        }
+        for m in v["mismatches"].as_array().cloned().unwrap_or_default() {
+            res.finding(
+                format!("atomic-diff/{}.{}", m["type"].as_str().unwrap_or("?"), m["op"].as_str().unwrap_or("?")),
+                format!("atomic result differs from the reference: {}", m),
+                json!({"engine": "atomic-diff", "type_index": i, "case": m}),
+            );
+        }
+        for s in v["samples"].as_array().cloned().unwrap_or_default() {
+            res.sample(s);
+        }
+    }
+    res.cov("atomic_differential_evaluations", total);
+    res.cov("atomic_differential_distinct_type_op_classes", classes);
+    res.add_count("evaluations", total);
 }
